@@ -52,6 +52,14 @@ def encodeMsgFile (pc : Nat) (maxLen : Nat) (cmd : Bytes) (data : Option Bytes) 
   fragsOf pc 1 3 (effMax maxLen - 6) cmd ++
     (match data with | some d => fragsOfFile pc 0 2 (effMax maxLen - 6) d | none => [])
 
+/-- the same stream for an explicit fragment size `n` (the code uses the largest possible, `maximum − 6`; any size from 1
+up to that satisfies C06, and an implementation is free to choose) -/
+def encodeMsgN (pc : Nat) (n : Nat) (cmd : Bytes) (data : Option Bytes) : List Frag :=
+  fragsOf pc 1 3 n cmd ++ (match data with | some d => fragsOf pc 0 2 n d | none => [])
+
+def encodeMsgFileN (pc : Nat) (n : Nat) (cmd : Bytes) (data : Option Bytes) : List Frag :=
+  fragsOf pc 1 3 n cmd ++ (match data with | some d => fragsOfFile pc 0 2 n d | none => [])
+
 /-- `pdu_length` of the P-DATA-TF carrying one fragment: item length (4) + context id (1) +
 control header (1) + fragment -/
 def Frag.pduLength (f : Frag) : Nat := 6 + f.body.length
